@@ -581,6 +581,25 @@ pub fn brotli_stored(data: &[u8]) -> Vec<u8> {
     w.out
 }
 
+/// The stream the "real decoder" scenarios carry for `data`: stored meta-blocks
+/// in the normal profiles; in the ASan slice (`enc::compress_mode()`) a stream
+/// compressed by the C encoder (quality and window chosen from a hash of the
+/// data, so generation stays deterministic), optionally against the raw shared
+/// dictionary `dict`; every eighth stays stored.
+pub fn brotli_stream(data: &[u8], dict: Option<&[u8]>) -> Vec<u8> {
+    if crate::enc::compress_mode() {
+        let h = vf_core::fnv64(data) ^ dict.map(|d| vf_core::fnv64(d).rotate_left(9)).unwrap_or(0);
+        if h % 8 != 7 || dict.is_some() {
+            let q = [0u32, 1, 2, 4, 5, 9, 10, 11][(h >> 8) as usize % 8];
+            let lgwin = [10u32, 11, 14, 16, 18, 22, 24][(h >> 16) as usize % 7];
+            if let Some(v) = crate::enc::brotli_compress(data, dict, q, lgwin) {
+                return v;
+            }
+        }
+    }
+    brotli_stored(data)
+}
+
 /// Known-good shared-dictionary stream from the repo's own tests:
 /// dictionary "abcdef\n" -> "hijkabcdeflmnohijkabcdeflmno\n".
 pub const DICT_BASE: &[u8] = b"abcdef\n";
